@@ -189,6 +189,12 @@ def r1_tables(program, rep):
                 ("call", ("global", "set"), (OUTS,), ()), outs) is not None
         if okp:
             ins = f["ins"]
+            if isinstance(ins, ast.Call) and call_name(ins)[0] == "set" and \
+                    len(ins.args) == 1 and not ins.keywords and \
+                    isinstance(ins.args[0], (ast.List, ast.Tuple, ast.Set)) \
+                    and len(ins.args[0].elts) == 1:
+                # set([x]) is {x}
+                ins = ast.copy_location(ast.Set(elts=ins.args[0].elts), ins)
             okp = isinstance(ins, ast.Set) and len(ins.elts) == 1 and \
                 arrival(ins.elts[0], create_node)
             arr_expr = ins.elts[0] if okp else None
@@ -238,12 +244,15 @@ def r1_tables(program, rep):
     # -- merge --------------------------------------------------------------------
     oka = False
     add_node = None
-    for c in calls_in(fn, "add"):
-        recv = T.term(c.func.value, cfg.node_containing(c))
+    from ..util import single_adds
+    for recv_e, elem_e, c in single_adds(fn):
+        cn_ = cfg.node_containing(c) if isinstance(c, ast.Call) else \
+            cfg.node_of(c)
+        recv = T.term(recv_e, cn_)
         if recv[0] == "attr" and recv[2] == "ins" and lookup(recv[1]) and \
                 same_entry(*lookup(recv[1]), what="add"):
-            add_node = cfg.node_containing(c)
-            oka = len(c.args) == 1 and arrival(c.args[0], add_node)
+            add_node = cn_
+            oka = arrival(elem_e, add_node)
     if oka and create_node is not None and raise_node is not None:
         # every iteration creates, merges or raises
         done = (create_node, add_node, raise_node)
@@ -271,9 +280,12 @@ def r1_tables(program, rep):
         f = dict(zip(fields, rte[0].args))
         for k in rte[0].keywords:
             f[k.arg] = k.value
-        route = T.term(f["route"], n)
-        srcs = T.term(f["sources"], n) if "sources" in f else None
-        key, mask = T.term(f["key"], n), T.term(f["mask"], n)
+        from .C04 import _comp_env
+        env_ = _comp_env(T, rte[0])     # (the entry may be built inside a
+        #                                 comprehension)
+        route = T.term(f["route"], n, env_)
+        srcs = T.term(f["sources"], n, env_) if "sources" in f else None
+        key, mask = T.term(f["key"], n, env_), T.term(f["mask"], n, env_)
         ok = route[0] == "attr" and route[2] == "outs" and srcs is not None \
             and srcs == ("attr", route[1], "ins")
         if ok:
@@ -299,17 +311,15 @@ def r1_tables(program, rep):
                     chip = lk2[1]
                 else:
                     chip = None
-                app = [c for c in calls_in(fn, "append")]
                 ok = False
-                for c in app:
-                    if not c.args:
+                for recv_e, elem_e, c in single_adds(fn):
+                    cn_ = cfg.node_containing(c) if isinstance(
+                        c, ast.Call) else cfg.node_of(c)
+                    if strip_new(T.term(elem_e, cn_, _comp_env(
+                            T, elem_e))) != strip_new(T.term(rte[0], n,
+                                                             env_)):
                         continue
-                    if strip_new(T.term(c.args[0],
-                                        cfg.node_containing(c))) != \
-                            strip_new(T.term(rte[0], n)):
-                        continue
-                    lk3 = lookup(T.term(c.func.value,
-                                        cfg.node_containing(c)))
+                    lk3 = lookup(T.term(recv_e, cn_))
                     ok = lk3 is not None and lk3[1] == chip and \
                         chip is not None
     rep.check(ok, "C10-R1", inst, "entry = RoutingTableEntry(route=outs, "
